@@ -66,12 +66,7 @@ func (m sModel) view(i int) int8 {
 	if m.deltas[i] != 0 {
 		return m.deltas[i]
 	}
-	if m.cache[i] == 3 {
-		return 0
-	}
-	if m.cache[i] != 0 {
-		return m.cache[i]
-	}
+	// the read cache is transparent: it can only mirror the ledger
 	return m.ledger[i]
 }
 
@@ -163,28 +158,14 @@ func (w *sWorld) apply(o sOp) (msg string) {
 		if ok != (want != 0) || slabVer(s) != want {
 			return fmt.Sprintf("%s returned version %d found=%v, model view is %d", o, slabVer(s), ok, want)
 		}
-		if m.deltas[o.ID] == 0 && m.cache[o.ID] == 0 && m.ledger[o.ID] != 0 {
-			m.cache[o.ID] = m.ledger[o.ID]
-		}
 	case "rigd":
 		s, ok, err := w.st.RetrieveIgnoringDeltas(u.ids[o.ID], o.Flag)
 		if err != nil {
 			return fmt.Sprintf("%s failed: %v", o, err)
 		}
-		var want int8
-		switch {
-		case m.cache[o.ID] == 3:
-			want = 0
-		case m.cache[o.ID] != 0:
-			want = m.cache[o.ID]
-		default:
-			want = m.ledger[o.ID]
-		}
+		want := m.ledger[o.ID]
 		if ok != (want != 0) || slabVer(s) != want {
 			return fmt.Sprintf("%s returned version %d found=%v, committed version is %d", o, slabVer(s), ok, want)
-		}
-		if o.Flag && m.cache[o.ID] == 0 && m.ledger[o.ID] != 0 {
-			m.cache[o.ID] = m.ledger[o.ID]
 		}
 	case "commit", "ncommit":
 		pend := w.ownedPending()
@@ -248,10 +229,8 @@ func (w *sWorld) apply(o sOp) (msg string) {
 				nDone++
 				if m.deltas[i] == 3 {
 					m.ledger[i] = 0
-					m.cache[i] = 3
 				} else {
 					m.ledger[i] = m.deltas[i]
-					m.cache[i] = m.deltas[i]
 				}
 				m.deltas[i] = 0
 			}
@@ -269,9 +248,6 @@ func (w *sWorld) apply(o sOp) (msg string) {
 		}
 	case "dropcache":
 		w.st.DropCache()
-		for i := range m.cache {
-			m.cache[i] = 0
-		}
 	case "preload":
 		var ids []atree.SlabID
 		for _, i := range o.Set {
@@ -280,16 +256,10 @@ func (w *sWorld) apply(o sOp) (msg string) {
 		if err := w.st.BatchPreload(ids, o.N); err != nil {
 			return fmt.Sprintf("%s failed: %v", o, err)
 		}
-		for _, i := range o.Set {
-			if m.ledger[i] != 0 {
-				m.cache[i] = m.ledger[i]
-			}
-		}
 	case "recreate":
 		w.st = NewStorage(w.l)
 		for i := range m.deltas {
 			m.deltas[i] = 0
-			m.cache[i] = 0
 		}
 	}
 	return w.observe(o)
@@ -355,28 +325,29 @@ func (w *sWorld) observe(after sOp) string {
 				cv = 3
 			}
 		}
-		if cv != m.cache[i] {
-			return fmt.Sprintf("after %s: cache holds %d for slab %d, model %d", after, cv, i, m.cache[i])
-		}
-		// a cache entry can only mirror the ledger
-		if m.cache[i] == 3 && m.ledger[i] != 0 || m.cache[i] != 0 && m.cache[i] != 3 && m.cache[i] != m.ledger[i] {
-			return fmt.Sprintf("after %s: cache entry %d of slab %d does not mirror the ledger (%d)", after, m.cache[i], i, m.ledger[i])
+		// The cache is not predicted (caching policy is the implementation's business); it is
+		// observed, becomes part of the state key, and must mirror the ledger: a present entry holds
+		// the committed version, a cached absence means the ledger has no such register.
+		m.cache[i] = cv
+		if cv == 3 && m.ledger[i] != 0 || cv != 0 && cv != 3 && cv != m.ledger[i] {
+			return fmt.Sprintf("after %s: read cache holds %d for slab %d but the ledger holds version %d (a superseded entry would be served)", after, cv, i, m.ledger[i])
 		}
 		// is-loaded
-		il := w.st.RetrieveIfLoaded(id)
-		var wantIL int8
+		// is-loaded: a pending change is always loaded; otherwise either nothing or the committed version
+		il := slabVer(w.st.RetrieveIfLoaded(id))
 		switch {
 		case m.deltas[i] == 3:
-			wantIL = 0
+			if il != 0 {
+				return fmt.Sprintf("after %s: RetrieveIfLoaded(%d) returns version %d of a slab whose removal is pending", after, i, il)
+			}
 		case m.deltas[i] != 0:
-			wantIL = m.deltas[i]
-		case m.cache[i] == 3:
-			wantIL = 0
+			if il != m.deltas[i] {
+				return fmt.Sprintf("after %s: RetrieveIfLoaded(%d) = version %d, the pending version is %d", after, i, il, m.deltas[i])
+			}
 		default:
-			wantIL = m.cache[i]
-		}
-		if slabVer(il) != wantIL {
-			return fmt.Sprintf("after %s: RetrieveIfLoaded(%d) = version %d, model %d", after, i, slabVer(il), wantIL)
+			if il != 0 && il != m.ledger[i] {
+				return fmt.Sprintf("after %s: RetrieveIfLoaded(%d) = version %d, the committed version is %d", after, i, il, m.ledger[i])
+			}
 		}
 		if m.deltas[i] != 0 {
 			nD++
